@@ -44,8 +44,48 @@ fn msg_text(mstp_log: bool, text: &str) -> DltMessage {
     m
 }
 
+fn verbose_ctrl_response_u8() -> DltMessage {
+    let mut m = msg(1, b"ECU1", 2000, 2000);
+    // verbose control response: verb=1, mstp=3 (control), mtin=2 (response)
+    m.extended_header = Some(DltExtendedHeader { verb_mstp_mtin: 1 | (3 << 1) | (2 << 4), noar: 1, apid: DltChar4::from_buf(b"APID"), ctid: DltChar4::from_buf(b"CTID") });
+    // one verbose argument: type info UINT 8 bit (0x41), value 7
+    m.payload = vec![0x41, 0, 0, 0, 7];
+    m
+}
+
 fn main() {
     let which = std::env::args().nth(1).unwrap_or_default();
+    if which == "b1_lc" {
+        let first = msg(0, b"ECU1", 1000, 1000);
+        let (out, _t) = run(vec![first, verbose_ctrl_response_u8()]);
+        println!("delivered {} msgs (no panic)", out.len());
+        return;
+    }
+    if which == "b1_anon" {
+        use adlt::plugins::plugin::Plugin;
+        let cfg = serde_json::json!({"name":"Anonymize"});
+        let mut p = adlt::plugins::anonymize::AnonymizePlugin::new("anon");
+        let mut m = verbose_ctrl_response_u8();
+        let r = p.process_msg(&mut m);
+        println!("anonymize process_msg returned {} (no panic)", r);
+        return;
+    }
+    if which == "b4" {
+        use adlt::plugins::plugin::Plugin;
+        let cfg = serde_json::json!({"name":"FileTransfer","allowSave":true});
+        let mut p = adlt::plugins::file_transfer::FileTransferPlugin::from_json(cfg.as_object().unwrap()).unwrap();
+        // FLST announcement with size, package count and buffer size u32::MAX
+        let mut payload: Vec<u8> = vec![];
+        let strg = |pl: &mut Vec<u8>, s: &str| { pl.extend_from_slice(&0x0000_0200u32.to_le_bytes()); pl.extend_from_slice(&((s.len() + 1) as u16).to_le_bytes()); pl.extend_from_slice(s.as_bytes()); pl.push(0); };
+        let uint = |pl: &mut Vec<u8>, v: u32| { pl.extend_from_slice(&0x0000_0043u32.to_le_bytes()); pl.extend_from_slice(&v.to_le_bytes()); };
+        strg(&mut payload, "FLST"); uint(&mut payload, 1); strg(&mut payload, "f.bin"); uint(&mut payload, u32::MAX); strg(&mut payload, "date"); uint(&mut payload, u32::MAX); uint(&mut payload, u32::MAX); strg(&mut payload, "FLST");
+        let mut m = msg(0, b"ECU1", 1000, 1000);
+        m.extended_header = Some(DltExtendedHeader { verb_mstp_mtin: 1 | (0 << 1) | (4 << 4), noar: 8, apid: DltChar4::from_buf(b"SYS\0"), ctid: DltChar4::from_buf(b"FILE") });
+        m.payload = payload;
+        let r = p.process_msg(&mut m);
+        println!("file transfer process_msg returned {} (no panic)", r);
+        return;
+    }
     if which == "f1" {
         use adlt::filter::Filter;
         let f = Filter::from_json(r#"{"type":0,"mstp":3}"#).unwrap();
